@@ -1,11 +1,13 @@
-// go2lean: translate loop-free integer/byte functions of a Go package to Lean 4 (BitVec).
+// go2lean (COPY for gen-implfast): translate loop-free integer/byte functions of a Go package to Lean 4 (BitVec).
 //
-// Features marked "IMPLFAST" were added for gen-implfast (which keeps an identical copy under
-// go/gen-implfast/go2lean): (1) calls into other packages mapped to already translated Lean definitions
-// (-ext), (2) Go's short-circuit evaluation of `X && Y` / `X || Y` when Y indexes or slices (before, every
-// index was hoisted in front of the whole condition, which over-approximated panics — sound for "never
-// panics" theorems but needlessly partial), (3) -header. They are inert for packages that do not use them:
-// Gen/Wire.lean and Gen/WktTime.lean are byte-identical with and without them.
+// This is a verbatim copy of /verif/go/go2lean/main.go with three additions, each marked "IMPLFAST":
+//   1. calls of functions of another package (`protowire.ConsumeVarint(b)`) are mapped to an already
+//      translated Lean definition through the -ext flag (`protowire.ConsumeVarint=Gen.Wire.consumeVarint:partial`);
+//   2. `X && Y` / `X || Y` whose right operand indexes or slices is translated with Go's short-circuit
+//      evaluation (the index of Y is only evaluated — and can only panic — when X does not decide the
+//      result); the stock translator hoists every index in front of the whole condition, which
+//      over-approximates panics (`len(b) >= 2 && b[1] < 128` would "panic" on a one-byte slice);
+//   3. the header line names this generator.
 package main
 
 import (
